@@ -125,6 +125,13 @@ def run(ctx):
             law("fftshift(x('t',shift))=x('t')", np.fft.fftshift(Ts.signal, axes=-1) + o, obj("t").signal + o)
             law("x('w')=numpy.fft.fft", W.signal + o * n, np.fft.fft(obj.signal, axis=-1) + o * n)
             law("x('t')=numpy.fft.ifft", obj("t").signal + o / n, np.fft.ifft(obj.signal, axis=-1) + o / n)
+            # the results of transforms are signal objects like any other: transforming them again only depends on the samples they hold
+            for Y in (Ws, W, Ts):
+                law("x('t')=numpy.fft.ifft", Y("t").signal + o, np.fft.ifft(Y.signal, axis=-1) + o)
+                law("x('w')=numpy.fft.fft", Y("w").signal + o * n * n, np.fft.fft(Y.signal, axis=-1) + o * n * n)
+                if noisy:
+                    law("noise-transformed-like-signal", Y("t").noise + o, np.fft.ifft(Y.noise, axis=-1) + o)
+                    law("noise-transformed-like-signal", Y("t", True).noise + o, np.fft.ifftshift(np.fft.ifft(Y.noise, axis=-1), axes=-1) + o)
             tot = obj.signal + (obj.noise if noisy else 0)
             law("power=mean|s+n|^2", np.atleast_1d(obj.power()), np.atleast_1d(np.mean(np.abs(tot) ** 2, axis=-1)))
             k_axis = np.fft.fftfreq(n) * n
